@@ -32,7 +32,7 @@ pub struct A1 {
     pub inner: A3,
 }
 
-#[derive(TS)]
+#[derive(TS, Clone)]
 #[ts(export_to = p(2), rename = n(2))]
 pub struct A2(pub String);
 
@@ -102,6 +102,31 @@ pub struct I3 {
     #[ts(inline)]
     pub g: G<A2>,
     pub o: Option<Vec<F1>>,
+}
+
+// the same type both inlined / flattened and referred to by name, in either order
+#[derive(TS)]
+#[ts(export_to = p(20), rename = n(20))]
+pub struct I4 {
+    #[ts(inline)]
+    pub a: A1,
+    pub b: A1,
+}
+
+#[derive(TS)]
+#[ts(export_to = p(21), rename = n(21))]
+pub struct I5 {
+    pub a: F1,
+    #[ts(flatten)]
+    pub b: F1,
+}
+
+#[derive(TS)]
+#[ts(export_to = p(22), rename = n(22))]
+pub struct I6 {
+    pub h: G<A2>,
+    #[ts(inline)]
+    pub g: G<A2>,
 }
 
 // ---- family C: cycles ------------------------------------------------------------------------
@@ -183,6 +208,49 @@ pub struct R0 {
     pub a: A2,
 }
 
+// ---- family K: the container zoo (dependencies reachable only through library impls) ------
+
+#[derive(TS)]
+#[ts(export_to = p(23), rename = n(23))]
+pub struct K0 {
+    pub a: Result<A1, A2>,
+    pub b: (A1, Vec<A3>),
+    pub c: [A2; 3],
+    pub d: std::rc::Rc<A1>,
+    pub e: std::sync::Arc<F1>,
+}
+
+#[derive(TS)]
+#[ts(export_to = p(24), rename = n(24))]
+pub struct K1 {
+    pub f: std::collections::BTreeMap<String, A3>,
+    pub g: std::collections::HashSet<A2>,
+    pub h: std::collections::BTreeSet<A2>,
+    pub i: std::ops::Range<A2>,
+    pub j: std::cell::RefCell<A1>,
+    pub k: std::sync::Mutex<F1>,
+    pub l: std::marker::PhantomData<A2>,
+    pub m: Option<Box<Vec<(A1, A2)>>>,
+    pub n: &'static [A3],
+    pub o: std::borrow::Cow<'static, A2>,
+    pub q: std::ops::RangeInclusive<D0>,
+}
+
+#[derive(TS)]
+#[ts(export_to = p(25), rename = n(25))]
+pub struct K2<T> {
+    pub a: Option<T>,
+    pub b: Vec<(T, A2)>,
+    pub c: HashMap<String, T>,
+}
+
+#[derive(TS)]
+#[ts(export_to = p(26), rename = n(26))]
+pub struct K3 {
+    pub x: K2<A1>,
+    pub y: [Option<K2<G<A3>>>; 2],
+}
+
 // ---- family L: literal attributes, as in ordinary user code -------------------------------
 
 #[derive(TS)]
@@ -215,7 +283,7 @@ pub struct L3 {
 pub struct L4(pub String);
 
 /// Number of definitions that read the table (`p(i)` / `n(i)`).
-pub const DER_DEFS: usize = 20;
+pub const DER_DEFS: usize = 27;
 
 #[derive(Clone, Copy, Debug)]
 pub enum Place {
@@ -268,7 +336,15 @@ pub const L1_: usize = 25;
 pub const L2_: usize = 26;
 pub const L3_: usize = 27;
 pub const L4_: usize = 28;
-pub const DER_HANDLES: usize = 29;
+pub const I4_: usize = 29;
+pub const I5_: usize = 30;
+pub const I6_: usize = 31;
+pub const K0_: usize = 32;
+pub const K1_: usize = 33;
+pub const K2_A1: usize = 34;
+pub const K2_G_A3: usize = 35;
+pub const K3_: usize = 36;
+pub const DER_HANDLES: usize = 37;
 
 use Place::{Lit, RenameOnly, Table as Tb};
 
@@ -322,6 +398,22 @@ pub const MANIFEST: [DerInfo; DER_HANDLES] = [
     DerInfo { label: "L2", place: Lit { name: "L2", export_to: Some("lit/shared.ts") }, import_refs: &[], reach_refs: &[] },
     DerInfo { label: "L3", place: Lit { name: "L3", export_to: Some("lit/shared.ts") }, import_refs: &[L4_], reach_refs: &[L4_] },
     DerInfo { label: "L4", place: Lit { name: "L4", export_to: Some("../up/L4.ts") }, import_refs: &[], reach_refs: &[] },
+    // type I4 = { a: { x: number, inner: A3 }, b: A1 };
+    DerInfo { label: "I4", place: Tb(20), import_refs: &[A3_, A1_], reach_refs: &[A3_, A1_] },
+    // type I5 = { a: F1, p: A2, q: number };
+    DerInfo { label: "I5", place: Tb(21), import_refs: &[F1_, A2_], reach_refs: &[F1_, A2_] },
+    // type I6 = { h: G<A2>, g: { v: A2, w: Array<A2> } };
+    DerInfo { label: "I6", place: Tb(22), import_refs: &[G_A2, A2_], reach_refs: &[G_A2, A2_] },
+    // type K0 = { a: { Ok : A1 } | { Err : A2 }, b: [A1, Array<A3>], c: [A2, A2, A2], d: A1, e: F1 };
+    DerInfo { label: "K0", place: Tb(23), import_refs: &[A1_, A2_, A3_, F1_], reach_refs: &[A1_, A2_, A3_, F1_] },
+    // type K1 = { f: { [key in string]?: A3 }, g: Array<A2>, h: Array<A2>, i: { start: A2, end: A2 }, j: A1, k: F1, l: A2,
+    //             m: Array<[A1, A2]> | null, n: Array<A3>, o: A2, q: { start: D0, end: D0 } };
+    DerInfo { label: "K1", place: Tb(24), import_refs: &[A3_, A2_, A1_, F1_, D0_], reach_refs: &[A3_, A2_, A1_, F1_, D0_] },
+    // type K2<T> = { a: T | null, b: Array<[T, A2]>, c: { [key in string]?: T } };
+    DerInfo { label: "K2<A1>", place: Tb(25), import_refs: &[A2_], reach_refs: &[A2_, A1_] },
+    DerInfo { label: "K2<G<A3>>", place: Tb(25), import_refs: &[A2_], reach_refs: &[A2_, G_A3, A3_] },
+    // type K3 = { x: K2<A1>, y: [K2<G<A3>> | null, K2<G<A3>> | null] };
+    DerInfo { label: "K3", place: Tb(26), import_refs: &[K2_A1, A1_, G_A3, A3_], reach_refs: &[K2_A1, K2_G_A3, A1_, G_A3, A3_] },
 ];
 
 pub fn der_handle(h: usize) -> Handle {
@@ -356,6 +448,14 @@ pub fn der_handle(h: usize) -> Handle {
         L2_ => handle::<L2>(l),
         L3_ => handle::<L3>(l),
         L4_ => handle::<L4>(l),
+        I4_ => handle::<I4>(l),
+        I5_ => handle::<I5>(l),
+        I6_ => handle::<I6>(l),
+        K0_ => handle::<K0>(l),
+        K1_ => handle::<K1>(l),
+        K2_A1 => handle::<K2<A1>>(l),
+        K2_G_A3 => handle::<K2<G<A3>>>(l),
+        K3_ => handle::<K3>(l),
         _ => panic!("no such derived handle {h}"),
     }
 }
